@@ -12,4 +12,4 @@ one() {
   else echo "MISS        $id rc=$rc"; fi
 }
 export -f one
-ls -d /verif/seeded/*${pat}* | xargs -P 6 -I{} bash -c 'one {}' | sort -k3
+ls -d /verif/seeded/*${pat}*/ | sed "s,/$,," | xargs -P 6 -I{} bash -c 'one {}' | sort -k3
